@@ -262,6 +262,46 @@ Example ex_pad_not_grouped :
   = [48; 48; 48; 53].
 Proof. vm_compute. reflexivity. Qed.
 
+
+(* hypotheses of the digit-level statements: r = 50 at d = 3 is "050", shown as "05" *)
+Example ex_fraction :
+  0 <= 50 < 10 ^ Z.of_nat 3 /\ zpad 3 (str_of_Z 50) = [48; 53; 48] /\ fdigits 3 50 = [48; 53].
+Proof. split; [lia|]. split; vm_compute; reflexivity. Qed.
+Example ex_grouping : group3 [49; 50; 51; 52; 53; 54; 55] = [49; 44; 50; 51; 52; 44; 53; 54; 55].
+Proof. vm_compute. reflexivity. Qed.
+(* an integer argument: TEXT(1234567, "#,##0.00") = "1,234,567.00" *)
+Example ex_integer :
+  text_spec half_away (inject_Z 1234567)
+    {| f_int := [35; 44; 35; 35; 48]; f_dot := true; f_frac := [48; 48]; f_pct := 0 |}
+  = [49; 44; 50; 51; 52; 44; 53; 54; 55; 46; 48; 48].
+Proof. vm_compute. reflexivity. Qed.
+
+(* ------------------------------------------------ the usual reading of 0 and #
+   integer part "#..#0..0" (a '#', then b '0'): the digits are padded with zeros
+   to b places; fraction part "0..0#..#" (a '0', then b '#'): at least a digits *)
+Lemma firstn_repeat {A} (x : A) : forall n m, firstn n (repeat x m) = repeat x (Nat.min n m).
+Proof. induction n as [|n IH]; intros [|m]; try reflexivity. cbn [firstn repeat Nat.min]. rewrite IH. reflexivity. Qed.
+Lemma skipn_repeat {A} (x : A) : forall n m, skipn n (repeat x m) = repeat x (m - n).
+Proof. induction n as [|n IH]; intros [|m]; try reflexivity. cbn [skipn repeat Nat.sub]. apply IH. Qed.
+Lemma zeros_of_hashes n : zeros_of (repeat 35 n) = [].
+Proof. induction n; [reflexivity|exact IHn]. Qed.
+Lemma zeros_of_zeros n : zeros_of (repeat 48 n) = repeat 48 n.
+Proof. induction n as [|n IH]; [reflexivity|]. cbn [repeat]. rewrite zeros_of_cons, IH. reflexivity. Qed.
+
+Lemma text_padding_all : forall a b L : nat,
+  zeros_of (firstn (a + b - L) (repeat 35 a ++ repeat 48 b)) = repeat 48 (b - L)
+  /\ zeros_of (skipn L (repeat 48 a ++ repeat 35 b)) = repeat 48 (a - L).
+Proof.
+  intros a b L. unfold zeros_of. split.
+  - rewrite firstn_app, filter_app, repeat_length, !firstn_repeat.
+    fold (zeros_of (repeat 35 (Nat.min (a + b - L) a))). rewrite zeros_of_hashes.
+    fold (zeros_of (repeat 48 (Nat.min (a + b - L - a) b))). rewrite zeros_of_zeros.
+    cbn [app]. f_equal. lia.
+  - rewrite skipn_app, filter_app, repeat_length, !skipn_repeat.
+    fold (zeros_of (repeat 48 (a - L))). rewrite zeros_of_zeros.
+    fold (zeros_of (repeat 35 (b - (L - a)))). rewrite zeros_of_hashes. apply app_nil_r.
+Qed.
+
 (* ------------------------------------------- the statements of Props/C20.v *)
 Lemma text_halfeven_all : forall x F, fmt_ok F = true ->
   text_fmt x (fmt_string F) = Ok (text_spec half_even x F)
